@@ -24,16 +24,29 @@ SPEC = {
                 'uint is 64 bit (attempt counter arithmetic modelled as uint64)',
                 'encoding/json round trip of merkleroot.Outcome between rounds (exercised, not modelled)'],
     'assumptions': ['libocr calls Outcome with the previous outcome it agreed on; MaxReportTransmissionCheckAttempts is a Go uint'],
-    'level_text': 'Proof: 10 Coq theorems. Every (state, next state) pair is an edge of the README diagram for every previous '
-                  'outcome (any type value), query and consensus result, the building self-loop only on a retry query and then '
-                  'with the unchanged outcome; exact exit conditions of the waiting phase in their order; from any outcome and '
-                  'any sequence of rounds the selecting state is reached within max+2 non-retry rounds (strictly decreasing '
-                  'measure, tight example, uint64 wrap of the counter included); retry reproduces the outcome for any number '
-                  'of retry rounds (after fixes/F27.patch; refutation of the unrepaired function). Correspondence: histories '
-                  'through Processor.Outcome compared round by round with the model',
-    'level_note': 'Trusted: Coq kernel, hand-written model, differential harness. The consensus computation is an input (C01). '
-                  'No axioms.',
-    'modelled': 'Outcome.NextState, getOutcome, reportRangesOutcome, buildReport (with RMN bundle parsing and filter), '
-                'checkForReportTransmission; Processor.Observation side of the state machine (what is observed per state) is not '
-                'part of this model',
+    'level_text': 'Proof: 15 closed Coq theorems. 10 property theorems over the model of Outcome.NextState / getOutcome: every (state, next state) pair is an edge of the '
+                  'README diagram for every previous outcome (any type value), query and consensus result (C03_edges, C03_next_state_total), the building self-loop only '
+                  'on a retry query and then with the unchanged outcome (C03_retry_ignored_elsewhere, C03_retry_identity, C03_retry_rounds_identity for any number of '
+                  'retry rounds); the exact exit conditions of the waiting phase in their order (C03_wait_exit), the cursor carried by a building round '
+                  '(C03_build_carries_cursor); from ANY outcome and any sequence of rounds the selecting state is reached within max+2 non-retry rounds (C03_recovery, '
+                  'C03_progress: strictly decreasing measure, tight example, uint64 wrap of the attempt counter included). Unrepaired code refuted: '
+                  'C03_retry_identity_unfixed_refuted (F27: the retry branch was unreachable behind the consensus error; repaired in /repo). Judge soundness (5 '
+                  "C03_judge_*): the per-round and per-history executable property accepts the model's own history and an implementation history that passes satisfies "
+                  "the edge, wait-exit, carry, retry and recovery clauses along the implementation's own trajectory (property, not equality with the model). "
+                  'Correspondence, every run: histories of 1..16 rounds through the real merkleroot.Processor.Outcome on one Processor per history, the outcome fed back '
+                  'through its JSON encoding, first outcomes of every type incl. out-of-range ones, attempt counters at the wrap; the C04 DON history drives the same '
+                  'machine inside four long-lived commit plugins (sink C04_round). Translation tie (3 theorems, C03_gen.v): Outcome.NextState and both iota constant '
+                  'blocks are re-translated from source and proved equal to the model; totality restated over the generated function. Not judged here: the content of a '
+                  'selected outcome (C02), what is observed per state (C02 / C05 history parts); C03_retry_ignored_elsewhere relates two runs and transfers through model '
+                  'equality only.',
+    'level_note': 'Trusted: Coq kernel, hand-written model and theorem statements, differential harness, leaf translator. Specific: the consensus over the observations '
+                  '(getConsensusObservation, property C01) is an INPUT of the model - the harness calls the real function and hands its result to the model; uint is 64 '
+                  'bit (MaxReportTransmissionCheckAttempts is a Go uint, attempt arithmetic modelled as uint64; recovery needs max < 2^64); encoding/json round trip of '
+                  'merkleroot.Outcome between rounds is exercised, not modelled; libocr hands Outcome the previous outcome it agreed on. No axioms.',
+    'technique': 'Coq theorems by induction over round lists on a hand-written Gallina state machine; differential correspondence over JSON-threaded histories with a '
+                 'proved per-round / per-history judge; NextState and its constants re-translated from Go (C03_gen.v)',
+    'modelled': 'Hand model (Model/CommitSM.v): Outcome.NextState, getOutcome, reportRangesOutcome, buildReport (with RMN bundle parsing and filter), '
+                'checkForReportTransmission. Translated from source per run: Outcome.NextState with the OutcomeType and processor-state iota blocks. Inputs of the '
+                'model: the consensus observation (computed by the real getConsensusObservation), the query, the previous outcome. The Processor.Observation side of '
+                'the state machine (what is observed per state) is not part of this model (it is in C02Hist.v / C05Life.v)',
 }
